@@ -246,7 +246,14 @@ def step1 (fo : FloatOps) (fuel : Nat) (s : St) (op : Json) : E (St × Json) := 
     match h.normalize inplace (getBoolD op "percent" false) with
     | .ok h' => pure (s.set out h', Json.str "ok")
     | .error _ => pure (if inplace && h.total != 0 then s.set r (h.coerce .f64) else s, Json.str "REFUSED")
-  | "invalid" => pure (s, Json.str "REFUSED")
+  | "invalid" =>
+    -- `h *= 1e200`: the content type is promoted (losslessly) for the python float before the square of the factor
+    -- overflows and the call is refused; every other invalid call is refused before anything happens
+    if (fieldD op "what").getStr?.toOption == some "imul_overflow" then
+      let r ← reg "h"
+      let h ← s.get r
+      pure (s.set r (h.coerce .f64), Json.str "REFUSED")
+    else pure (s, Json.str "REFUSED")
   | "sum" =>
     let hs ← getList (fun x => x.getNat?) (← field op "hs")
     let out ← reg "out"
